@@ -164,6 +164,9 @@ Proof.
   intros H Hb. eapply Forall_impl; [|apply mesh_grid_rows]. intros row [pt [_ E]]. subst row. rewrite nth_set_by_neq by exact Hb.
   rewrite flatten_row_unfold. rewrite fold_assign_notin by exact H. apply nth_zeros.
 Qed.
+Lemma mesh_grid_is_user_mesh lin m n (t : cterm R) :
+  mesh_gridR lin m n t = user_mesh_grid Rfops m t (map (axisR lin n) (term_marginals t)).
+Proof. reflexivity. Qed.
 (* the by-column is one in every row of the mesh grid: every term kind *)
 Theorem mesh_grid_by_one lin m n t j : term_by t = Some j -> (j < m)%nat -> Forall (fun row => nth j row 0 = 1) (mesh_gridR lin m n t).
 Proof.
@@ -268,4 +271,37 @@ Proof.
     apply (pdep_on_by_one_rows ts beta i m). intros j Eb. split; [apply Hj; exact Eb|]. apply (default_grid_by_one lin m n _ j g Eb (Hj j Eb) E).
   - unfold pdep_meshgrid. apply (pdep_on_by_one_rows ts beta i m). intros j Eb. split; [apply Hj; exact Eb|].
     apply mesh_grid_by_one; [exact Eb|apply Hj; exact Eb].
+Qed.
+
+(* ---------- user-supplied meshes (partial_dependence(term, X=<tuple>, meshgrid=True)) ---------- *)
+Theorem user_mesh_rows m (t : cterm R) axes :
+  length (user_mesh_grid Rfops m t axes) = length (mesh axes) /\
+  (forall j, term_by t = Some j -> (j < m)%nat -> Forall (fun row => nth j row 0 = 1) (user_mesh_grid Rfops m t axes)) /\
+  (forall c, ~ In c (map simple_feature (term_marginals t)) -> term_by t <> Some c ->
+     Forall (fun row => nth c row 0 = 0) (user_mesh_grid Rfops m t axes)) /\
+  (NoDup (map simple_feature (term_marginals t)) -> Forall (fun s => (simple_feature s < m)%nat) (term_marginals t) ->
+   (forall j, term_by t = Some j -> ~ In j (map simple_feature (term_marginals t))) -> length axes = length (term_marginals t) ->
+   forall r i, (r < length (mesh axes))%nat -> (i < length (term_marginals t))%nat ->
+     nth (simple_feature (nth i (term_marginals t) (SLinear O))) (nth r (user_mesh_grid Rfops m t axes) []) 0 = nth i (nth r (mesh axes) []) 0).
+Proof.
+  unfold user_mesh_grid. split; [apply map_length|]. split; [|split].
+  - intros j Hb Hj. apply Forall_forall. intros row Hr. apply in_map_iff in Hr. destruct Hr as [pt [E _]]. subst row. rewrite Hb.
+    apply nth_set_by_eq. rewrite flatten_row_unfold, fold_assign_length, zeros_length. exact Hj.
+  - intros c Hc Hb. apply Forall_forall. intros row Hr. apply in_map_iff in Hr. destruct Hr as [pt [E _]]. subst row.
+    rewrite nth_set_by_neq by exact Hb. rewrite flatten_row_unfold, fold_assign_notin by exact Hc. apply nth_zeros.
+  - intros ND Hm Hby Hl r i Hr Hi.
+    set (F := fun pt => set_byR (term_by t) (flatten_rowR m (map simple_feature (term_marginals t)) pt)).
+    rewrite (nth_indep _ [] (F [])) by (rewrite map_length; exact Hr). rewrite (map_nth F). unfold F.
+    assert (Hnb : term_by t <> Some (simple_feature (nth i (term_marginals t) (SLinear O)))).
+    { intros Eb. apply (Hby _ Eb). apply in_map. apply nth_In. exact Hi. }
+    rewrite nth_set_by_neq by exact Hnb. rewrite flatten_row_unfold.
+    replace (simple_feature (nth i (term_marginals t) (SLinear O))) with (nth i (map simple_feature (term_marginals t)) O)
+      by (exact (map_nth simple_feature (term_marginals t) (SLinear O) i)).
+    pose proof (mesh_point_length axes) as PL. rewrite Forall_forall in PL.
+    apply fold_assign_in.
+    + exact ND.
+    + rewrite map_length, <- Hl. apply PL. apply nth_In. exact Hr.
+    + rewrite map_length. exact Hi.
+    + rewrite zeros_length. change (nth i (map simple_feature (term_marginals t)) O) with (nth i (map simple_feature (term_marginals t)) (simple_feature (@SLinear R O))).
+      rewrite map_nth. rewrite Forall_forall in Hm. apply Hm. apply nth_In. exact Hi.
 Qed.
